@@ -17,7 +17,7 @@ import os, sys, json, tempfile, shutil
 import vlib, e2e, sync_e2e
 
 THEOREMS = ['C08_kill_states_safe', 'C08_kill_states_are_of_this_run', 'C08_chunk_step', 'C08_no_damaged_file_passes',
-            'C08_rerun_repairs', 'C08_executable', 'C08_states_well_formed', 'C08_rerun_executable', 'C08_executable_unconditional', 'C08_chunk_ladder_matches_code']
+            'C08_rerun_repairs', 'C08_executable', 'C08_states_well_formed', 'C08_rerun_executable', 'C08_executable_unconditional', 'C08_chunk_ladder_matches_code', 'C08_walked_crash_states', 'C08_walked_rerun_repairs']
 KINDS = ('CreateRootAncestors', 'CreateOrUpdateFile', 'CreateSymlink', 'CreateFolder', 'DeleteFile', 'DeleteFolder', 'DeleteSymlink')
 RECOVER = {'newer': 'A', 'older': 'A', 'same': 'S', 'entry': 'A', 'root': 'A'}
 
